@@ -4,7 +4,7 @@
    assumes inet_pton (inet_ntop a) = a and the character shape of inet_ntop's output; both are
    sampled by the correspondence run on every generated address. *)
 From CAres.Config Require Import Spec Lines_proofs.
-From CAres.Gen Require Import Consts.
+From CAres.Gen Require Import Consts LeafFns.
 Local Open Scope N_scope.
 
 (* ------------------------------------------------------------------ list facts *)
@@ -259,7 +259,8 @@ Definition plain_text (a : addr) (p : Z) (iface : bytes) : bytes :=
 Lemma get_server_addr_plain sv : sv_tcp sv = sv_udp sv ->
   get_server_addr nf sv = Ok (plain_text (sv_addr sv) (sv_udp sv) (sv_iface sv)).
 Proof.
-  intros E. unfold get_server_addr. rewrite E, Z.eqb_refl. cbn [negb].
+  intros E. unfold get_server_addr, use_uri, LeafFns.c_ares_server_use_uri. rewrite E, Z.eqb_refl. cbn [negb].
+  change (negb (ARES_FALSE =? 0)%Z) with false. cbv iota.
   unfold plain_text, plain_suffix. destruct (sv_addr sv), (sv_iface sv); cbn [app]; rewrite <- ?app_assoc; reflexivity.
 Qed.
 
@@ -458,7 +459,12 @@ Qed.
 
 (* ------------------------------------------------------------------ ares_servers_update of the parsed entries *)
 Lemma eff_port_id c p : port_ok p -> eff_port c p = p.
-Proof. intros H. unfold eff_port, port_ok in *. destruct (Z.eqb_spec p 0); [lia|]. destruct (Z.eqb_spec p 0); [lia|reflexivity]. Qed.
+Proof.
+  intros H. unfold eff_port, LeafFns.c_ares_sconfig_get_port, port_ok in *.
+  change (negb (0 =? 0)%Z) with false. cbv iota.
+  rewrite (Z.mod_small p) by (change (2 ^ 16)%Z with 65536%Z; lia).
+  destruct (Z.eqb_spec p 0); [lia|reflexivity].
+Qed.
 
 Lemma update_one_fresh cudp ctcp sv : server_ok sv -> update_one cudp ctcp [] (entry_of sv) = sv.
 Proof.
